@@ -38,10 +38,12 @@ PROPS = {
          'rule': 'on the real application behind ABCI: an honest proposal built by PrepareProposal on a well-behaved fake engine (mempool with admissible / foreign / stale transactions, due system transactions) and one mutation of it per case: payload fields (parent, number, beacon root, fee recipient, timestamp ahead, extra data, dropped / duplicated / reordered system transactions, request list shapes, blob gas) and structure (other proposer, foreign signer, second block message, block message not first, two messages in the first tx, 17 transactions, empty proposal); ProcessProposal verdict and the FinalizeBlock result of the block message are compared with the model; the same family under the Go race detector; distinct = distinct (mutation, verdict)',
          'assumptions': ['the payload facts (child of head, beacon root, ...) are computed by the harness from the proposal and the committed state and handed to the model as booleans; the model is the decision logic over them',
                          'the goroutine footprints (Gen/Footprint.v) are syntactic: selector reads/writes on the shared msg/payload inside each closure and inside the x/goat/types callees that receive the payload, assignments to captured variables']},
- 'C09': {'runs': runs([{'family': 'faults', 'bin': 'ah', 'n': 60, 'shards': 1}, {'family': 'goatblock', 'bin': 'ah', 'n': 100, 'shards': 1, 'tag': '1'}, {'family': 'goatblock', 'bin': 'ah', 'n': 90, 'shards': 1, 'param': 'forced', 'tag': '2', 'seed_off': 3}],
-                      [{'family': 'faults', 'bin': 'ah', 'n': 600, 'shards': 4}, {'family': 'goatblock', 'bin': 'ah', 'n': 2000, 'shards': 8, 'tag': '1'}, {'family': 'goatblock', 'bin': 'ah', 'n': 1200, 'shards': 4, 'param': 'forced', 'tag': '2', 'seed_off': 3}]),
+ 'C09': {'runs': runs([{'family': 'faults', 'bin': 'ah', 'n': 60, 'shards': 1}, {'family': 'goatblock', 'bin': 'ah', 'n': 100, 'shards': 1, 'tag': '1'}, {'family': 'goatblock', 'bin': 'ah', 'n': 90, 'shards': 1, 'param': 'forced', 'tag': '2', 'seed_off': 3},
+                       {'family': 'chain', 'bin': 'ah', 'n': 40, 'shards': 1, 'tag': '3'}],
+                      [{'family': 'faults', 'bin': 'ah', 'n': 600, 'shards': 4}, {'family': 'goatblock', 'bin': 'ah', 'n': 2000, 'shards': 8, 'tag': '1'}, {'family': 'goatblock', 'bin': 'ah', 'n': 1200, 'shards': 4, 'param': 'forced', 'tag': '2', 'seed_off': 3},
+                       {'family': 'chain', 'bin': 'ah', 'n': 800, 'shards': 4, 'tag': '3'}]),
          'monitor_props': ['C09'],
-         'rule': 'engine fault kinds {error, INVALID, SYNCING, ACCEPTED, missing payload id, timeout} x call sites {forkchoice while proposing, getPayload, newPayload while checking, newPayload and forkchoice at end of block} on the real application (state on disk): committed or not, head before/after, reopen from disk and retry compared with a fault-free run; plus the proposal mutations of C08 for the head-step relation, and (state on disk) proposals that ProcessProposal rejected forced through FinalizeBlock without commit to observe the block message alone, then discarded by a restart; distinct = distinct (phase, fault kind)',
+         'rule': 'histories of 5..9 finalised consensus blocks on the real application (state on disk), every block finalised whatever ProcessProposal would say: honest payloads, payloads that are not a valid child (parent, number +-1, blob gas, beacon root), other consensus proposer / fee recipient, block messages failing on their request lists or system transactions, each with or without an engine fault {error, INVALID, SYNCING, ACCEPTED} at newPayload or forkchoiceUpdated of the end of the block; failed blocks discarded by reopening; after every block the committed head, beacon root and the arguments of both engine calls are compared with the chain-level model (family chain) ; engine fault kinds {error, INVALID, SYNCING, ACCEPTED, missing payload id, timeout} x call sites {forkchoice while proposing, getPayload, newPayload while checking, newPayload and forkchoice at end of block} on the real application (state on disk): committed or not, head before/after, reopen from disk and retry compared with a fault-free run; plus the proposal mutations of C08 for the head-step relation, and (state on disk) proposals that ProcessProposal rejected forced through FinalizeBlock without commit to observe the block message alone, then discarded by a restart; distinct = distinct (phase, fault kind)',
          'assumptions': ['the fake engine is the only execution layer; timeouts are the 1.2 s / 2 s context deadlines of the keeper']},
  'C10': {'runs': runs([{'family': 'ante', 'bin': 'ah', 'n': 400, 'shards': 2}, {'family': 'goatblock', 'bin': 'ah', 'n': 150, 'shards': 1, 'tag': '1', 'seed_off': 9}],
                       [{'family': 'ante', 'bin': 'ah', 'n': 4000, 'shards': 8}, {'family': 'goatblock', 'bin': 'ah', 'n': 2000, 'shards': 8, 'tag': '1', 'seed_off': 9}]),
@@ -100,7 +102,7 @@ PROPS = {
          'rule': BRIDGE_RULE + ' (projection: deposits as VerifyDeposit accepts them incl. version-1 transactions with three outputs and near-miss scripts, withdrawal address strings incl. white-space wrapped ones) ; deposit addresses: key type {ECDSA, Schnorr; valid, short, bad prefix, off-curve} x version {0,1} x network {4 configured} x EVM address / magic prefix lengths, through the builders AND Query/DepositAddress of a real keeper, then the script a wallet derives from the returned string is fed to the verifiers with the same and with another key / EVM address; verifiers on independently built genuine scripts with 8 mutations; withdrawal address strings of 12 kinds (p2pkh, p2sh, p2wpkh, p2wsh, p2tr, non-standard witness programs v0..16 x 8 lengths, wrong checksum flavour, p2pk hex, bad base58 lengths / versions, random bytes, leading zeros) from 5 source networks under 4 configured networks with 9 string mutations; distinct = distinct (kind, mutation, outcome)',
          'assumptions': ['SHA-256 / HASH160 / the taproot tweak are abstract functions with fixed output length in the theorems; "for no other" is concluded up to an exhibited collision', 'elliptic-curve facts (x-only key parses, tweaked output key, HASH160) are data supplied by the harness from the real libraries',
                          'observation outside the property: btcd decodes a witness-v1 address with a 20-byte program (non-standard) as P2WPKH; counted in the distribution, not a violation of the property as stated'],
-         'partial': 'the segwit string codec is proved end to end (C17_bech32_round_trip with the checksum algebra, C17_regroup_round_trip, C17_segwit_address_round_trip); the base58check codec of legacy withdrawal addresses is validated byte-exactly by the differential run and the decode-oracle monitor, not by a theorem'},
+         'partial': 'both string codecs are proved round trips for every payload (bech32 / bech32m with the checksum algebra and the 8<->5-bit regrouping; base58check with the positional-number lemmas), so handed-out and withdrawal addresses decode to the script they encode; the legacy statement is for strings that DecodeAddress does not first read as segwit (text before the last 1 being a configured prefix), which no P2PKH / P2SH string of the configured networks is; elliptic-curve facts and hash output lengths are hypotheses'},
  'C18': {'runs': runs([{'family': 'locking', 'n': 160, 'shards': 16, 'param': 'proj=C18,blocks=14'}, {'family': 'bridge', 'n': 120, 'shards': 16, 'param': 'proj=C18,ops=45', 'tag': '1'}, {'family': 'export', 'bin': 'ah', 'n': 16, 'shards': 1, 'tag': '2'}],
                       [{'family': 'locking', 'n': 3000, 'shards': 64, 'param': 'proj=C18,blocks=24'}, {'family': 'bridge', 'n': 2500, 'shards': 64, 'param': 'proj=C18,ops=70', 'tag': '1'}, {'family': 'export', 'bin': 'ah', 'n': 300, 'shards': 2, 'tag': '2'}]),
          'monitor_props': ['C18'],
